@@ -35,8 +35,18 @@ func (ru *run) mutate(vb *chainBlock) *chainBlock {
 			ru.r.Count("fault:damaged_block_is_a_sibling", 1)
 		}
 	}
+	// half of the damage is of the kinds the checked property's own text demands to be rejected
+	var own []int
+	for i := range mutations {
+		if mutations[i].mustReject == ru.r.Prop {
+			own = append(own, i)
+		}
+	}
 	for try := 0; try < 6; try++ {
 		m := &mutations[t.Choose(len(mutations), "mutation")]
+		if len(own) > 0 && t.Prob(1, 2, "own_mutation") {
+			m = &mutations[own[t.Choose(len(own), "which_own")]]
+		}
 		b := cloneBlock(vb.block)
 		offenders := append([]types.Ed25519Public(nil), vb.offenders...)
 		if !m.apply(ru, vb.parent, &b, &offenders) {
